@@ -708,6 +708,8 @@ class PyPath:
         for _ in range(3):
             changed = False
             for name, val in self.env.items():
+                if name.startswith("<none>"):
+                    continue
                 new = re.sub(r"(?<![\w.])%s(?![\w])" % re.escape(name), "(" + val + ")", txt)
                 if new != txt:
                     txt, changed = new, True
@@ -865,8 +867,23 @@ class PathEnum:
                 return [l for v in test.values for l in self.split(v, False, env, depth)]
         return [(test, val)]
 
-    def paths(self, stmts, depth=0):
-        res = [PyPath([], "fall", {})]
+    def known_value(self, test, env):
+        """truth value of a test that only asks about a local currently holding None, else None"""
+        if isinstance(test, ast.UnaryOp) and isinstance(test.op, ast.Not):
+            v = self.known_value(test.operand, env)
+            return None if v is None else not v
+        if isinstance(test, ast.Call) and isinstance(test.func, ast.Name) and test.func.id == "isinstance" and len(test.args) == 2:
+            if ("<none>" + ast.unparse(test.args[0])) in env and "None" not in ast.unparse(test.args[1]):
+                return False
+        if isinstance(test, ast.Compare) and len(test.ops) == 1 and ast.unparse(test.comparators[0]) == "None" and ("<none>" + ast.unparse(test.left)) in env:
+            if isinstance(test.ops[0], (ast.Is, ast.Eq)):
+                return True
+            if isinstance(test.ops[0], (ast.IsNot, ast.NotEq)):
+                return False
+        return None
+
+    def paths(self, stmts, depth=0, start=None):
+        res = [start if start is not None else PyPath([], "fall", {})]
         for st in stmts:
             nxt = []
             for p in res:
@@ -882,12 +899,8 @@ class PathEnum:
         return res
 
     def _seq(self, p, stmts, depth):
-        out = []
-        for q in self.paths(stmts, depth):
-            env = dict(p.env)
-            env.update(q.env)
-            out.append(PyPath(p.lits + q.lits, q.outcome, env, p.events + [(c, n + len(p.lits)) for c, n in q.events]))
-        return out
+        # the block continues the path: it sees the bindings made so far and may undo them
+        return self.paths(stmts, depth, PyPath(p.lits, "fall", p.env, p.events))
 
     def step(self, st, p, depth):
         def calls(node):
@@ -898,11 +911,16 @@ class PathEnum:
         if isinstance(st, ast.Raise):
             return [PyPath(p.lits, "raise", p.env, p.events)]
         if isinstance(st, ast.Return):
-            return [PyPath(p.lits, "return", p.env, p.events + (calls(st.value) if st.value is not None else []))]
+            q = PyPath(p.lits, "return", p.env, p.events + (calls(st.value) if st.value is not None else []))
+            q.ret = ast.unparse(st.value) if st.value is not None else None
+            return [q]
         if isinstance(st, ast.If):
             res = []
             ev = p.events + calls(st.test)
+            known = self.known_value(st.test, p.env)
             for val, body in ((True, st.body), (False, st.orelse)):
+                if known is not None and val != known:
+                    continue  # `isinstance(x, T)` / `x is None` on a local that holds None: one branch only
                 q = PyPath(p.lits + self.split(st.test, val, p.env), "fall", p.env, ev)
                 res += self._seq(q, body, depth)
             return res
@@ -915,12 +933,39 @@ class PathEnum:
             return res
         if isinstance(st, ast.With):
             return self._seq(p, st.body, depth)
+        if isinstance(st, ast.Assign) and len(st.targets) == 1 and isinstance(st.targets[0], (ast.Name, ast.Attribute)) \
+                and isinstance(st.value, ast.Call) and isinstance(st.value.func, ast.Name) and st.value.func.id in self.funcs and depth < 3:
+            # `x = helper(args)`: the helper's paths, x bound to what each returns
+            fn = self.funcs[st.value.func.id]
+            env = dict(p.env)
+            for a, prm in zip(st.value.args, fn.args.args):
+                env[prm.arg] = p._expand(a)
+            res = []
+            tname = ast.unparse(st.targets[0])
+            for q in self._seq(PyPath(p.lits, "fall", env, p.events + [(st.value, len(p.lits))]), fn.body, depth + 1):
+                if q.outcome in ("fall", "return"):
+                    e2 = dict(q.env)
+                    e2.pop(tname, None)
+                    e2.pop("<none>" + tname, None)
+                    r = getattr(q, "ret", None)
+                    if r is not None and not re.search(r"(?<![\w.])%s(?![\w])" % re.escape(tname), r):
+                        e2[tname] = PyPath([], "fall", q.env)._expand(ast.parse(r, mode="eval").body)
+                    res.append(PyPath(q.lits, "fall", e2, q.events))
+                else:
+                    res.append(PyPath(q.lits, q.outcome, q.env, q.events))
+            return res
         if isinstance(st, ast.Assign) and len(st.targets) == 1 and isinstance(st.targets[0], (ast.Name, ast.Attribute)):
             env = dict(p.env)
+            env.pop("<none>" + ast.unparse(st.targets[0]), None)
+            if isinstance(st.value, ast.Constant) and st.value.value is None:
+                env["<none>" + ast.unparse(st.targets[0])] = "1"
             name = ast.unparse(st.targets[0])
             val = ast.unparse(st.value)
-            if name in env or re.search(r"(?<![\w.])%s(?![\w])" % re.escape(name), val):
-                env.pop(name, None)  # reassigned (or defined from itself): no longer a plain alias
+            pat = r"(?<![\w.])%s(?![\w])" % re.escape(name)
+            if re.search(pat, val):
+                env.pop(name, None)  # defined from itself: not a plain alias
+            elif name in env and (any(re.search(pat, ast.unparse(t)) for t, _v in p.lits) or any(re.search(pat, ast.unparse(c)) for c, _n in p.events)):
+                env.pop(name, None)  # reassigned after something on the path was said about the old value
             else:
                 env[name] = val
             return [PyPath(p.lits, "fall", env, p.events + calls(st.value))]
@@ -1339,11 +1384,31 @@ def rule_ndjson_key_order(out):
         return
     allowed = {"ensure_ascii", "separators", "check_circular", "allow_nan", "indent"}
     n = 0
+    mod_dicts, mod_counts = {}, {}
+    for st in tree.body:
+        tgt, val = None, None
+        if isinstance(st, ast.Assign) and len(st.targets) == 1 and isinstance(st.targets[0], ast.Name):
+            tgt, val = st.targets[0].id, st.value
+        elif isinstance(st, ast.AnnAssign) and isinstance(st.target, ast.Name) and st.value is not None:
+            tgt, val = st.target.id, st.value
+        if tgt is not None:
+            mod_counts[tgt] = mod_counts.get(tgt, 0) + 1
+            if isinstance(val, ast.Dict):
+                mod_dicts[tgt] = val
+    mod_dicts = {k: v for k, v in mod_dicts.items() if mod_counts.get(k) == 1 and not re.search(r"(?<![\w.])%s\s*(\[|\.(update|pop|clear|setdefault))" % re.escape(k), ast.unparse(tree))}
     for mname, fn in methods(cls).items():
         for node in ast.walk(fn):
             if isinstance(node, ast.Call) and ast.unparse(node.func) in ("json.dump", "json.dumps"):
                 n += 1
-                extra = sorted(k.arg or "**" for k in node.keywords if (k.arg not in allowed) and not (k.arg == "sort_keys" and isinstance(k.value, ast.Constant) and k.value.value is False))
+                kws = []
+                for k in node.keywords:
+                    if k.arg is None and isinstance(k.value, ast.Name) and k.value.id in mod_dicts:
+                        # **OPTIONS where OPTIONS is a module-level dict literal bound once
+                        for dk, dv in zip(mod_dicts[k.value.id].keys, mod_dicts[k.value.id].values):
+                            kws.append(ast.keyword(arg=dk.value if isinstance(dk, ast.Constant) and isinstance(dk.value, str) else None, value=dv))
+                    else:
+                        kws.append(k)
+                extra = sorted(k.arg or "**" for k in kws if (k.arg not in allowed) and not (k.arg == "sort_keys" and isinstance(k.value, ast.Constant) and k.value.value is False))
                 out.check(not extra, rid, "NDJsonProtocolWriter.%s/%s options" % (mname, ast.unparse(node.func)), pos(rel, node), "order-preserving options only",
                           "serialises with %s: the header's schema text is no longer the schema literal's key order, which the C++ reader (ordered JSON comparison) and the format description rely on" % ", ".join(extra))
             if isinstance(node, ast.Call) and ast.unparse(node.func) == "json.loads":
@@ -1353,9 +1418,21 @@ def rule_ndjson_key_order(out):
     init = methods(cls).get("__init__")
     hdr_ok = False
     if init is not None:
+        # locals of the constructor bound once to a dict display
+        ldicts, lcounts = {}, {}
         for node in ast.walk(init):
-            if isinstance(node, ast.Dict) and len(node.keys) == 1 and isinstance(node.keys[0], ast.Constant) and node.keys[0].value == "yardl" and isinstance(node.values[0], ast.Dict):
+            if isinstance(node, ast.Assign) and len(node.targets) == 1 and isinstance(node.targets[0], ast.Name):
+                lcounts[node.targets[0].id] = lcounts.get(node.targets[0].id, 0) + 1
+                if isinstance(node.value, ast.Dict):
+                    ldicts[node.targets[0].id] = node.value
+        for node in ast.walk(init):
+            if isinstance(node, ast.Dict) and len(node.keys) == 1 and isinstance(node.keys[0], ast.Constant) and node.keys[0].value == "yardl":
                 inner = node.values[0]
+                if isinstance(inner, ast.Name) and lcounts.get(inner.id) == 1 and inner.id in ldicts \
+                        and not re.search(r"(?<![\w.])%s\s*(\[|\.(update|pop|clear|setdefault))" % re.escape(inner.id), ast.unparse(init)):
+                    inner = ldicts[inner.id]
+                if not isinstance(inner, ast.Dict):
+                    continue
                 ks = [k.value for k in inner.keys if isinstance(k, ast.Constant)]
                 vals = {k.value: ast.unparse(v) for k, v in zip(inner.keys, inner.values) if isinstance(k, ast.Constant)}
                 hdr_ok = ks == ["version", "schema"] and vals.get("schema", "").replace(" ", "") == "json.loads(schema)"
